@@ -204,8 +204,8 @@ func exec(ev string, a []int, nums [][]int, name string, msg []byte) *Rec {
 	}()
 	select {
 	case <-done:
-	case <-time.After(10 * time.Second):
-		r.Panic = "timeout: no answer within 10 s"
+	case <-time.After(30 * time.Second):
+		r.Panic = "timeout: no answer within 30 s"
 	}
 	return r
 }
